@@ -169,6 +169,43 @@ inductive Flow where
   | secret | login | create | wrap
   deriving DecidableEq, Repr
 
+/-- `MountEntry.Type` as far as `handleRequest` distinguishes it -/
+inductive MType where
+  | other | kv | generic | plugin
+  deriving DecidableEq, Repr
+
+/-- what the lease / no-lease decision of `handleRequest` reads from the mount of the request path -/
+structure Mount where
+  typ : MType
+  /-- `Config.PluginName == "kv"` (looked at for the legacy type `plugin` only) -/
+  pluginKV : Bool
+  /-- `Options == nil` -/
+  optsNil : Bool
+  /-- `Options["leased_passthrough"] == "true"` -/
+  leasedPT : Bool
+  /-- the backend is a `*PassthroughBackend`; the payload is its `GeneratesLeases()` -/
+  passthrough : Option Bool
+  deriving DecidableEq, Repr
+
+/-- a mount written the way `sys/mounts` writes it today: type = engine name, no options -/
+def Mount.modern : Mount := ⟨.other, false, true, false, none⟩
+
+/-- `registerLease` in `handleRequest`: a response carrying a `Secret` is registered with the expiration manager
+unless the mount is a KV mount that does not ask for leases ("KV mounts should return the TTL but not register for a
+lease") -/
+def registerLease (m : Mount) : Bool :=
+  match m.typ with
+  | .kv | .generic =>
+    match m.passthrough with
+    | some generates => generates                              -- older passthrough backend: its own switch
+    | none => !(m.optsNil || !m.leasedPT)                      -- otherwise the mount options decide
+  | .plugin => !(m.pluginKV && (m.optsNil || !m.leasedPT))     -- legacy generic type: only for plugin name "kv"
+  | .other => true
+
+/-- the mounts the exemption is meant for -/
+def kvMount (m : Mount) : Bool :=
+  m.typ == .kv || m.typ == .generic || (m.typ == .plugin && m.pluginKV)
+
 structure Variant where
   flow : Flow
   req : Req
@@ -176,13 +213,15 @@ structure Variant where
   npol : Nat
   typ : Typ
   orphan : Bool
+  /-- the mount the secret is read from (secret / wrapped flows) -/
+  mount : Mount
   deriving DecidableEq, Repr
 
 /-- policies read from storage when the requester's ACL is built: none for root (built in) -/
 def polReads (v : Variant) : Nat := if v.req = .root then 0 else v.npol + 1
 
 inductive Resp where
-  | okSecret | okToken | okWrap | errInternal | errInvalid | errResp
+  | okSecret | okSecretUnleased | okToken | okWrap | errInternal | errInvalid | errResp
   deriving DecidableEq, Repr
 
 /-! ### token store / expiration manager internals used by the clean-up paths
@@ -321,12 +360,17 @@ def register (v : Variant) : M Unit := do
     let _ ← attempt (op_ .delete .secIdx)               -- removeIndexByToken (also for indexToken == "")
     fail
 
-/-- after the token check: the backend generates the secret, then `Register` -/
-def secretAfterCheck (v : Variant) : M Resp := do
-  modify fun s => { s with issued := s.issued + 1 }     -- the backend generates the secret
+/-- the secret was generated and must be registered: `Register`, the secret only goes out when it succeeded -/
+def secretLeased (v : Variant) : M Resp := do
   match ← attempt (register v) with
   | none => return .errInternal
   | some _ => return .okSecret
+
+/-- after the token check: the backend generates the secret; then the lease / no-lease decision on the mount -/
+def secretAfterCheck (v : Variant) : M Resp := do
+  modify fun s => { s with issued := s.issued + 1 }     -- the backend generates the secret
+  if registerLease v.mount then secretLeased v
+  else return .okSecretUnleased                         -- TTL returned, `Renewable = false`, no lease id
 
 def secretFlow (v : Variant) : M Resp :=
   guardReads (checkTokenReads v) .errInternal (secretAfterCheck v)
@@ -467,6 +511,9 @@ def goodFault (v : Variant) (o : Obs) : Bool :=
       -- the secret is handed out: durable, tracked lease and (unless the requester is an orphan batch token) its token index
       o.st.store.secLease && o.st.secPending && (v.req == .batchOrphan || o.st.store.secIdx) &&
       o.st.issued == 1 && o.st.revoked == 0
+  | some .okSecretUnleased =>
+      -- a secret without lease id: only a KV mount may answer like that (its data is not a dynamic credential)
+      kvMount v.mount && !o.st.store.secLease && !o.st.store.secIdx && !o.st.secPending
   | some .okToken =>
       -- a service token is handed out: token entry, durable tracked lease, and the token works
       v.typ == .batch || (o.st.store.tokId && o.st.store.leaseId && o.st.pending && usable o.st)
